@@ -298,6 +298,38 @@ def sizeof_completeness(prog, res):
                       "%s does not count the owned field %s.%s: the reported size under-reports what the object holds" % (fn, rec, fld))
 
 
+def buffer_mode_pairing(prog, res):
+    """T9: the streaming input buffer (window + block) exists iff inBufferMode is buffered, the streaming output buffer
+    (compressBound(block) + 1) iff outBufferMode is buffered - in the estimate exactly as in the reservation."""
+    R = "T9.buffer-mode-pairing"
+    n = 0
+    for name in ("ZSTD_estimateCStreamSize_usingCCtxParams", "ZSTD_resetCCtx_internal"):
+        f = prog.fn(name)
+        found = {}
+        for nm, ds in f.local_defs().items():
+            if len(ds) != 1 or ds[0] is None:
+                continue
+            d = strip_casts(f.resolve_x(ds[0]))
+            if d.get("k") != "cond":
+                continue
+            arms = [strip_casts(f.resolve_x(d["t"])), strip_casts(f.resolve_x(d["f"]))]
+            nz = [a for a in arms if a is not None and const_val(a) != 0]
+            if len(nz) != 1:
+                continue
+            modes = {a[2:] for a in f.anchors(d["c"], depth=2) if a in ("f:inBufferMode", "f:outBufferMode")}
+            if not modes:
+                continue
+            arm_an = f.anchors(nz[0], depth=2)
+            kind = "output buffer" if "c:ZSTD_compressBound" in arm_an else ("input buffer" if ({"f:windowLog"} & arm_an or any(a.startswith("p:") for a in arm_an) or True) else "?")
+            found[kind] = modes
+        for kind, want in (("input buffer", {"inBufferMode"}), ("output buffer", {"outBufferMode"})):
+            n += 1
+            res.check(found.get(kind) == want, R, "%s:%s" % (name, kind), f.loc, "%s is sized under a test of %s" % (kind, sorted(want)[0]),
+                      "%s sizes the streaming %s under %s instead of %s: the estimate and the reservation disagree for mixed stable/buffered modes"
+                      % (name, kind, sorted(found.get(kind) or ["no mode test"]), sorted(want)[0]))
+    res.need(R, 4)
+
+
 def run(tier):
     res = Result("C14", tier)
     tus, info = extract(["compress", "decompress", "common"])
@@ -306,6 +338,7 @@ def run(tier):
     one_sizing_routine(prog, res)
     term_agreement(prog, res)
     estimate_probes(prog, res)
+    buffer_mode_pairing(prog, res)
     static_never_grows(prog, res)
     bump_allocator(prog, res)
     decoder_window_cap(prog, res)
